@@ -496,6 +496,49 @@ func checkLeaseCleared(c *Ctx, rule string, rootFilter func(string) bool) {
 				}
 			}
 		}
+		if !idx {
+			// the transition may sit in a helper: then every call site of the helper (in a function the root reaches)
+			// must be preceded by the lease-index delete in the caller
+			var rootFn *ssa.Function
+			for _, m := range p.MethodsOf("queue", "MemoryStore") {
+				if m.Name() == e.Root {
+					rootFn = m
+				}
+			}
+			if rootFn != nil {
+				rr := p.Reach(rootFn)
+				sites := 0
+				all := true
+				for _, cs := range p.CallSitesOf(e.Fn) {
+					if !rr[cs.Parent()] {
+						continue
+					}
+					sites++
+					found := false
+					for _, b := range cs.Parent().Blocks {
+						for _, ins := range b.Instrs {
+							if ci, ok := ins.(ssa.CallInstruction); ok {
+								if bi, ok := ci.Common().Value.(*ssa.Builtin); ok && bi.Name() == "delete" && sf.isLeaseIndex(ci.Common().Args[0]) {
+									if ins.Block() == cs.Block() {
+										if instrIndex(ins) < instrIndex(cs) {
+											found = true
+										}
+									} else if _, ok := reach([]*ssa.BasicBlock{ins.Block()}, nil, nil)[cs.Block()]; ok {
+										found = true
+									}
+								}
+							}
+						}
+					}
+					if !found {
+						all = false
+					}
+				}
+				if sites > 0 && all {
+					idx = true
+				}
+			}
+		}
 		key := fmt.Sprintf("memory.%s:%s->%s:clears-lease", e.Root, e.From, strings.Trim(e.ToStr, "{}"))
 		if strings.Contains(e.Chain, " > ") {
 			key += " via " + e.Chain[strings.LastIndex(e.Chain, " > ")+3:]
